@@ -136,10 +136,27 @@ def execute(plan):
                 scheduler=sched,
                 scheduler_args=sargs,
             )
+            # the request persists: a second run on the same state, started while the stop is still
+            # requested, must emit nothing and change nothing
+            n_first = len(run.log.entries)
+            if info["raised"] is None and info["flag_after"] and not info["crashed"]:
+                before2 = state_digest(state)
+                reads2 = clock.reads
+                tc2 = dict(tc, starting_epoch=1, epochs=max(1, tc["epochs"]))
+                info2 = run_fit(run, state, tc2, data_in, bases, n_wit=cfg["n_wit"], flavours=cfg.get("flavours"))
+                ev2 = sum(1 for ent in run.log.entries[n_first:] if ent[0] == "ev")
+                run.probes["second_fit_while_stopped"] += 1
+                if info2["raised"] is not None:
+                    run.lib_exception(info2["raised"], "second fit while a stop is requested")
+                else:
+                    run.require(ev2 == 0, "S5", f"second fit on a state whose stop request persists emitted {ev2} callback events", second=True)
+                    run.require(state_digest(state) == before2, "S5", "second fit on a state whose stop request persists changed parameters", second=True)
+                    run.require(clock.reads == reads2, "S5", "second fit on a state whose stop request persists started the timer", second=True)
+                    run.require(info2["flag_after"], "P", "stop request was cleared by a second fit", second=True)
         rng.check_global()
     if info["raised"] is not None:
         run.lib_exception(info["raised"], "fit", N=cfg["data"]["N"], type=cfg["state"]["type"])
-    items, _ = protocol.extract(run, cfg["n_wit"])
+    items, _ = protocol.extract(run, cfg["n_wit"], upto=n_first)
     N = cfg["data"]["N"]
     if info["raised"] is None:
         protocol.judge(
